@@ -179,7 +179,7 @@ func (c *Ctx) Method(pkg, typ, name string) *ssa.Function {
 	if t == nil {
 		return nil
 	}
-	for _, recv := range []types.Type{types.NewPointer(t.Type()), t.Type()} {
+	for _, recv := range []types.Type{t.Type(), types.NewPointer(t.Type())} {
 		sel := c.Prog.MethodSets.MethodSet(recv).Lookup(p.Pkg, name)
 		if sel != nil {
 			return c.Prog.MethodValue(sel)
